@@ -662,7 +662,30 @@ def gen_case(rng, idx):
         # a declaration that may be skipped at run time
         lam = ("lam", ("x",), ("seq", (("if", ("chain", ("var", "x"), ((("var", "<"), ("int", 2)),)), ("decl", "a", ("int", 1)), ("null",)), ("var", "a"))))
         kind = "conditional-declaration"
-    force_mut_a = kind in ("self-rhs", "conditional-declaration")
+    elif p < 0.235 and "a" in outer:
+        # a declaration of `a` inside a nested scope must not leak: `a` after the scope is the outer variable
+        V = lambda n: ("var", n)
+        plus = lambda l, r: ("chain", l, ((V("+"), r),))
+        shapes = {
+            "while": ("seq", (("decl", "i", ("int", 0)),
+                              ("while", ("chain", V("i"), ((V("<"), ("int", 1)),)),
+                               ("seq", (("decl", "a", plus(V("x"), ("int", 1))), ("asg", "i", plus(V("i"), ("int", 1)))))),
+                              plus(V("a"), V("x")))),
+            "for-body": ("seq", (("for", "j", ("list", (("int", 1),)), (), False, ("decl", "a", plus(V("j"), V("x")))), plus(V("a"), V("x")))),
+            "for-var": ("seq", (("for", "a", ("list", (("int", 1), ("int", 2))), (), False, ("call", V("print"), (V("a"),))), plus(V("a"), V("x")))),
+            "for-let": ("seq", (("for", "j", ("list", (("int", 1),)), (("let", "a", plus(V("j"), ("int", 5))),), False,
+                                 ("call", V("print"), (V("a"),))), plus(V("a"), V("x")))),
+            "switch-pattern": ("seq", (("switch", V("x"), ((("pv", "a"), plus(V("a"), ("int", 1))),)), plus(V("a"), V("x")))),
+            "switch-arm": ("seq", (("switch", V("x"), ((("pw",), ("seq", (("decl", "a", ("int", 7)), V("a")))),)), plus(V("a"), V("x")))),
+            "catch": ("seq", (("try", ("throw", ("int", 1)), "a", plus(V("a"), ("int", 1))), plus(V("a"), V("x")))),
+            "lambda-param": ("seq", (("decl", "k", ("lam", ("a",), plus(V("a"), ("int", 1)))), plus(("call", V("k"), (V("x"),)), V("a")))),
+            "lambda-body": ("seq", (("decl", "k", ("lam", ("p",), ("seq", (("decl", "a", V("p")), V("a"))))), plus(("call", V("k"), (V("x"),)), V("a")))),
+            "comprehension": ("seq", (("decl", "w", ("for", "a", ("list", (("int", 1), ("int", 2))), (), True, plus(V("a"), V("x")))), plus(("call", V("len"), (V("w"),)), V("a")))),
+        }
+        which = rng.choice(sorted(shapes))
+        lam = ("lam", ("x",), shapes[which])
+        kind = "scope-" + which
+    force_mut_a = kind in ("self-rhs", "conditional-declaration") or kind.startswith("scope-")
     nargs = len(lam[1])
     pool = ARGS1 if nargs == 1 else ARGS2
     args = [pool[rng.randrange(len(pool))] for _ in range(3)]
